@@ -150,6 +150,13 @@ Terminates == (Len(stack) = 0) => (Mon.pend = "done" \/ Mon.escaped)
 \* the model's own bookkeeping agrees with what the monitor derives from the events
 StatusAgrees == (Len(stack) = 0 /\ ~Mon.escaped) => (Mon.code = status /\ Mon.body = body)
 
+\* liveness: under weak fairness of the machine every request ends - no program of handlers (Next() loops, nested runs,
+\* writes, cancels, panics) keeps run()/Next() going for ever  (C07: serving returns; checked without CONSTRAINT)
+FairSpec == Spec /\ WF_vars(Next)
+EventuallyEnds == <>(Len(stack) = 0)
+\* ... and once ended nothing moves any more
+EndedIsFinal == [][Len(stack) = 0 => UNCHANGED vars]_vars
+
 EmitCase == (EmitCases /\ Len(stack) = 0) =>
                PrintT("CASE " \o ToJson([fam |-> Family, n |-> N, progs |-> [i \in 1..(N + 1) |-> progs[i - 1]], ev |-> ev]))
 ====
